@@ -16,7 +16,7 @@ from ..common.labels import IntegratorLabel
 from ..common.logger import resonaateLogError, resonaateLogWarning
 from ..physics.bodies import Earth
 from .dynamics_base import Dynamics, DynamicsErrorFlag
-from .integration_events.finite_thrust import ScheduledFiniteThrust
+from .integration_events.finite_thrust import FiniteThrustEnd, ScheduledFiniteThrust
 from .integration_events.scheduled_impulse import ScheduledImpulse
 
 # Type Checking Imports
@@ -103,6 +103,12 @@ class Celestial(Dynamics, metaclass=ABCMeta):
             # [NOTE][parallel-maneuver-event-handling] Step four:
             #  Add the event queue to the list of events to be handled by the integration solver.
             events.extend(scheduled_events)
+            # The thrust event function only crosses zero at the start of the burn
+            events.extend(
+                FiniteThrustEnd(event)
+                for event in scheduled_events
+                if isinstance(event, ScheduledFiniteThrust)
+            )
             for event in scheduled_events:
                 # Grab finite thrust events that should already be active
                 if (
@@ -133,7 +139,11 @@ class Celestial(Dynamics, metaclass=ABCMeta):
         for event_index, event in enumerate(events):
             if t_events[event_index].size > 0:
                 current_time = t_events[event_index][-1]
-                if isinstance(event, ScheduledFiniteThrust):
+                if isinstance(event, FiniteThrustEnd):
+                    self.finite_thrust = event.thrust_event.getStateChangeCallback(
+                        event.thrust_event.end_time,
+                    )
+                elif isinstance(event, ScheduledFiniteThrust):
                     self.finite_thrust = event.getStateChangeCallback(current_time)
                 else:
                     current_state += event.getStateChange(current_time, current_state[:, 0])[
